@@ -99,4 +99,38 @@ def run(shard, rec):
                 scheds.add(sig)
         if len(outcomes) > 1:
             rec.count('programs_with_schedule_dependent_outcome')
+    # fixed-point programs: public float factors, truncations, list operations (other coroutine structure than secure integers)
+    from vlib import fxprogs
+    for pi in range(max(4, shard['programs'] // 2)):
+        spec = fxprogs.gen(rng, m, l=16, f=8, ops=fxprogs.CHEAP + ['mul_float', 'div_pub', 'mul_float'], n_steps=(3, 7))
+        outcomes = set()
+        for policy in rng.sample(sim.POLICIES, 3 if m <= 5 else 2):
+            sseed = rng.randrange(1 << 30)
+            case = [shard['name'], 'fxp', pi, policy, sseed]
+            if not rec.wants(case):
+                continue
+            w = sim.World(m, t, no_prss, seed=sseed, policy=policy).run(fxprogs.build(spec))
+            rec.count('runs')
+            rec.count('fxp_runs')
+            early = sum(1 for r in w.recv_log if r[3])
+            rec.count('receive_after_arrival', early)
+            rec.count('receive_before_arrival', len(w.recv_log) - early)
+            feats = {'asymmetric_yield': False, 'deferred_bump': bool(w.deferred_bumps)}
+            for site in w.deferred_bumps:
+                rec.seen('deferred_toplevel_pc_bump_sites', f'{site[0]} -> {site[1]}')
+            problems = runner.judge_completion(w)
+            problems += [('label-mismatch', p) for p in w.wire_check() if 'multisets differ' in p or 'duplicate' in p]
+            res = w.ok_results()
+            if res is not None and any(r != res[0] for r in res):
+                problems.append(('parties-disagree', f'parties obtained different values {[r[0][:5] for r in res[:3]]}'))
+            for mech, text in problems:
+                rec.violation(f'{shard["name"]} fxp program {pi} {[s[0] for s in spec["steps"]]} policy {policy}: {text}', dict(feats, mechanism=mech),
+                              {'fxspec': spec, 'policy': policy, 'sched_seed': sseed}, case=case)
+            outcomes.add(repr(res[0][0]) if res else 'none')
+            sig = w.sched_sig()
+            scheds.add(sig)
+            rec.case([shard['name'], 'fxp', pi, sig], nontrivial=m >= 2)
+        if len(outcomes) > 1:
+            # roundings may legitimately differ by schedule? no: all randomness is seeded per run, but masks differ per seed -> compare only agreement within a run
+            rec.count('fxp_programs_with_seed_dependent_rounding')
     rec.count('distinct_schedules', len(scheds))
